@@ -1,4 +1,5 @@
 import Rangers.Proofs.C09Msgs2
+import Rangers.Proofs.C09Fuel
 import Rangers.Props.C09C
 /-!
 # C09, part 4 — groups and blocks: wire and converter round trips, fixed point, lossless, hash stability
@@ -188,5 +189,23 @@ set_option maxRecDepth 8000 in
 example : (match marshalBlock sampleBlock with
     | .ok bs => unmarshalBlock bs == .ok sampleBlock
     | _ => false) = true := by decide
+
+/-! ## Fuel sufficiency: the fuelled loops of the wire model never run out of fuel -/
+
+/-- `parseRaw`'s fuel (`length + 1`) suffices: any larger fuel gives the same answer, so `none` always
+    means a decoding error of the input. -/
+theorem rawFields_fuel_sufficient (bs : Bytes) (f : Nat) (h : bs.length < f) : rawFields f bs = parseRaw bs :=
+  parseRaw_fuel_sufficient bs f h
+
+/-- Same for group skipping (`findEndGroup`), which `rawStep` calls with fuel `length + 1`. -/
+theorem findEnd_fuel_sufficient (bs : Bytes) (d f : Nat) (h : bs.length < f) :
+    findEnd f d bs = findEnd (bs.length + 1) d bs :=
+  findEnd_fuel f (bs.length + 1) d bs h (by omega)
+
+/-- Each loop iteration consumes at least one byte (why the fuel suffices). -/
+theorem rawStep_consumes (bs : Bytes) (r : Raw) (rest : Bytes) (h : rawStep bs = some (r, rest)) :
+    rest.length < bs.length := rawStep_shrinks bs r rest h
+
+example : rawStep [0x08, 0x01, 0x2a] = some (.vint 1 1, [0x2a]) := by decide
 
 end Rangers.Props.C09
